@@ -74,7 +74,11 @@ type Ctx struct {
 	reason  string
 	caseFn  func() interface{}
 	extra   map[string]interface{}
+	cleanup []func()
 }
+
+// Defer registers a clean-up (e.g. unsetting an environment variable) that runs when the case is over.
+func (c *Ctx) Defer(f func()) { c.cleanup = append(c.cleanup, f) }
 
 // Sub returns an independent deterministic stream for this case.
 func (c *Ctx) Sub(salt string) *Rand { return NewRand(c.P.ID, c.Seed, c.K, hashStr(salt)) }
@@ -195,6 +199,11 @@ func (w *Worker) runCase(k int64) (c *Ctx) {
 			if r := recover(); r != nil {
 				// A panic that escaped a property's own observers is a harness defect, not a verdict.
 				w.out.Broken = fmt.Sprintf("harness panic in case %d: %v\n%s", k, r, debug.Stack())
+			}
+		}()
+		defer func() {
+			for i := len(c.cleanup) - 1; i >= 0; i-- {
+				c.cleanup[i]()
 			}
 		}()
 		w.P.Run(c)
